@@ -162,3 +162,67 @@ def run_standins(prop: str, fns, tier: str, seed: int) -> dict:
                                       "what": "bounded stand-in %s: %d failing input(s), first: %r -> %s" % (
                                           r["name"], len(r["failures"]), r["failures"][0]["input"], r["failures"][0]["what"])})
     return out
+
+
+def _read_c_like_literal(text: str):
+    """reader of a double-quoted C / Go interpreted string literal restricted to the escapes \\\\ \\" \\n \\r \\t \\'
+    (returns the denoted string, or None if the text is not ONE well-formed literal)"""
+    if len(text) < 2 or text[0] != '"' or text[-1] != '"':
+        return None
+    body, out, i = text[1:-1], [], 0
+    while i < len(body):
+        ch = body[i]
+        if ch == '"' or ch == "\n" or ch == "\r":
+            return None                      # unescaped quote / raw line break ends or breaks the literal
+        if ch == "\\":
+            if i + 1 >= len(body):
+                return None
+            m = {"\\": "\\", '"': '"', "n": "\n", "r": "\r", "t": "\t", "'": "'"}.get(body[i + 1])
+            if m is None:
+                return None
+            out.append(m)
+            i += 2
+        else:
+            out.append(ch)
+            i += 1
+    return "".join(out)
+
+
+def string_literals(prop: str, tier: str, seed: int) -> dict:
+    """format_str_value of the three formatters on every string of length <= L over {a, ", \\, newline, tab, CR, ', e-acute, space}:
+    the emitted text is ONE literal of the target language that denotes exactly the value (Python: ast.literal_eval;
+    C and Go: a reader of their common escape subset)"""
+    import ast
+    from bitproto.renderer.impls.c.formatter import CFormatter
+    from bitproto.renderer.impls.go.formatter import GoFormatter
+    from bitproto.renderer.impls.py.formatter import PyFormatter
+    L = 4 if tier == "quick" else 5
+    alphabet = ["a", '"', "\\", "\n", "\t", "\r", "'", "é", " "]
+    fms = {"c": CFormatter(), "go": GoFormatter(), "py": PyFormatter()}
+    n, fails = 0, []
+    t0 = time.time()
+    for ln in range(0, L + 1):
+        for tup in itertools.product(alphabet, repeat=ln):
+            v = "".join(tup)
+            for lang, fm in fms.items():
+                n += 1
+                try:
+                    text = fm.format_str_value(v)
+                    if lang == "py":
+                        try:
+                            got = ast.literal_eval(text)
+                        except Exception:
+                            got = None
+                    else:
+                        got = _read_c_like_literal(text)
+                    if got != v:
+                        fails.append({"input": v, "what": "%s literal %r denotes %r" % (lang, text, got)})
+                except Exception as e:
+                    fails.append({"input": v, "what": "%s formatter raised %r" % (lang, e)})
+            if len(fails) > 20:
+                break
+        if len(fails) > 20:
+            break
+    return {"name": "string-literals", "function": "format_str_value of CFormatter, GoFormatter, PyFormatter",
+            "bound": "all strings of length <= %d over %r" % (L, alphabet), "evaluations": n, "failures": fails,
+            "wall_s": round(time.time() - t0, 2), "level": "bounded"}
